@@ -277,7 +277,16 @@ class Pcap(object):
             raise StopIteration
 
         try:
-            pcaprecord.packet = self.fopen.read(pcaprecord.incl_len)
+            # Read in bounded pieces: a corrupt length field must not make read() allocate up to 4 GiB
+            _chunks = []
+            _todo = pcaprecord.incl_len
+            while _todo > 0:
+                _chunk = self.fopen.read(min(_todo, 1 << 20))
+                if not _chunk:
+                    break
+                _chunks.append(_chunk)
+                _todo -= len(_chunk)
+            pcaprecord.packet = b"".join(_chunks)
         except:
             raise StopIteration
         else:
